@@ -1691,7 +1691,15 @@ class TaskScenario(ScenarioData):
         # Fall back to allocate (which may contain IDs or resource objects)
         allocate = self.property.get("allocate", self.scenarioIdx) or []
         for res in allocate:
-            if isinstance(res, str):
+            if isinstance(res, dict):
+                # Allocation with options: {'resources': [...], 'options': {'alternative': [...]}}
+                # Whichever candidates were booked carry the usage; look at all of them.
+                ids = list(res.get("resources", [])) + list(res.get("options", {}).get("alternative", []))
+                for res_id in ids:
+                    resource = self._resolve_resource(res_id)
+                    if resource is not None and resource not in resources:
+                        resources.append(resource)
+            elif isinstance(res, str):
                 # Look up resource by ID
                 for resource in self.project.resources:
                     if resource.id == res:
